@@ -22,6 +22,9 @@ Keys and encoded page ids are 64 hex digits, values hex (`-` = deleted); overlay
 * `pstatus <oid>` — the parent's status as `oid` sees it: `none` / `0` live / `1` dropped / `2` committed
 * `mergeleaves <disk key:valuehash,…> <overlay key:value,key:-,…>` → merged `key:valuehash,…`
 * `leaffetch <disk> <overlay>` → `ok key:valuehash` / `panic`
+* `seeknode <depth> <disk key:valuehash,…> <overlay key:valuehash,key:-,…>` — the node of the session's trie at
+  `depth` above the key range both lists are restricted to: the Blake3 `nodeAt` over `leavesMerge disk overlay`
+  (what `continue_leaves_fetch` reconstructs); the harness derives the real node from the real path proof
 * `bti <start> <end|-> <primary> <secondary|none> <leaves sep=k:v,k:v;sep=…>` → `items=<k:v,…> loaded=<n>`
 -/
 namespace Nomt.Driver
@@ -158,6 +161,10 @@ def ovlStep (s : OvlSt) (line : String) : OvlSt × String :=
        | .ok (k, v) => (s, s!"ok {hexOfKey k}:{hexOfBytes v}")
        | _ => (s, "panic"))
     | _, _ => (s, "bad-op")
+  | ["seeknode", depth, disk, ov] =>
+    match depth.toNat?, ovParseKV disk, parseOps ov with
+    | some d, some disk, some ov => (s, hexOfBytes (nodeAt blakeHasher (256 - d) d (leavesMerge disk ov)))
+    | _, _, _ => (s, "bad-op")
   | ["bti", a, b, prim, sec, leaves] =>
     match keyOfHex a, (if b == "-" then some none else (keyOfHex b).map some), parseOps prim,
           (if sec == "none" then some [] else parseOps sec), ovParseLeaves leaves with
